@@ -169,6 +169,18 @@ func oneFactorLayouts() []gen.Layout {
 	mod(func(l *gen.Layout) { l.PipeStyle = 2 })
 	mod(func(l *gen.Layout) { l.PipeStyle = 3 })
 	mod(func(l *gen.Layout) { l.DashStyle = 1 })
+	mod(func(l *gen.Layout) { l.QuoteMix = 1 })
+	mod(func(l *gen.Layout) { l.QuoteMix = 2 })
+	mod(func(l *gen.Layout) { l.Multi = true; l.Spread = true; l.QuoteMix = 1 })
+	mod(func(l *gen.Layout) { l.Multi = true; l.Spread = true; l.SpreadHead = true; l.QuoteMix = 1 })
+	mod(func(l *gen.Layout) { l.Multi = true; l.Spread = true; l.SpreadHead = true; l.QuoteMix = 2 })
+	mod(func(l *gen.Layout) { l.Multi = true; l.Spread = true; l.SpreadHead = true })
+	mod(func(l *gen.Layout) { l.OpenGap = 1 })
+	mod(func(l *gen.Layout) { l.OpenGap = 2 })
+	mod(func(l *gen.Layout) { l.OpenGap = 4 })
+	mod(func(l *gen.Layout) { l.Multi = true; l.OpenGap = 2 })
+	mod(func(l *gen.Layout) { l.Multi = true; l.OpenGap = 1 })
+	mod(func(l *gen.Layout) { l.GapTab = true })
 	mod(func(l *gen.Layout) { l.Multi = true; l.DashStyle = 2 })
 	mod(func(l *gen.Layout) { l.Multi = true; l.DashStyle = 3 })
 	mod(func(l *gen.Layout) { l.Multi = true; l.DashStyle = 2; l.NL = "\r\n" })
